@@ -37,11 +37,14 @@ class Harness:
         return d
 
 
-def harness(prop, args="", pre=(), tiers=None, **kw):
+def harness(prop, args="", pre=(), tiers=None, also=(), **kw):
+    """also: further property ids this harness serves as a rider (its post-condition includes them)"""
     def deco(f):
         h = Harness(prop=prop, name=f.__name__, body=f, module=f.__module__, args=args,
                     pre=list(pre), tiers=tiers or {}, **kw)
         REGISTRY.setdefault(prop, []).append(h)
+        for a in also:
+            REGISTRY.setdefault(a, []).append(h)
         f.__harness__ = h
         return f
 
